@@ -36,15 +36,23 @@ def tie_world(plan, seed):
     spec = plan["spec"]
     if spec["network"]["kind"] == "haversine" and spec["stations"]:
         hub = spec["vehicles"][0]["cell"] if spec["vehicles"] else world.CENTER
-        res = r.choice([10, 11, 12])
-        ring = sorted(h3.hex_ring(h3.h3_to_parent(hub, res), r.choice([1, 2, 3])))
+        # exact ties need exact symmetry: the hub is the CENTRE of a coarse cell and the stations are the centres of cells of one
+        # ring around it (equal grid distance at the location resolution); when the ring is taken at the search resolution itself the
+        # tied stations also lie in different search cells of one search ring
+        sres = int(spec["sim"]["sim_h3_search_resolution"])
+        res = sres if r.random() < 0.75 else r.choice([10, 11, 12])
+        hub_parent = h3.h3_to_parent(hub, res)
+        hub = h3.h3_to_center_child(hub_parent, 15)
+        ring = sorted(h3.hex_ring(hub_parent, r.choice([1, 1, 2, 3])))
         cells = [h3.h3_to_center_child(c, 15) for c in ring]
         r.shuffle(cells)
         for i, s in enumerate(spec["stations"]):
             s["cell"] = cells[i % len(cells)]
-        for v in spec["vehicles"]:
-            if r.random() < 0.6:
+        for j, v in enumerate(spec["vehicles"]):
+            if j == 0 or r.random() < 0.6:
                 v["cell"] = hub
+                if v["mech"] == "bev" and r.random() < 0.7:
+                    v["soc"] = r.choice([0.03, 0.05, 0.08])   # looks for a station at once, from the exact centre
         if spec["bases"] and r.random() < 0.5:
             ring_b = sorted(h3.hex_ring(h3.h3_to_parent(hub, res), 1))
             for i, b in enumerate(spec["bases"]):
@@ -306,6 +314,8 @@ class C01Driver:
     def extra(self, tier, base_seed):
         t0 = time.time()
         n_worlds, k = (72, 4) if tier == "quick" else (600, 8)
+        if os.environ.get("HIVESIM_C01_WORLDS"):   # experiments only
+            n_worlds = int(os.environ["HIVESIM_C01_WORLDS"])
         hashseeds = self.hashseeds(base_seed, k)
         plans = []
         for i in range(n_worlds):
